@@ -60,6 +60,9 @@ def apply(F, S):
         for fname, cl in cls.items():
             key = "%s.%s" % (s, fname)
             if cl == "PARAM":
+                # "parameters are unchanged by reset": whatever the store list says, the evaluated reset() must not touch them
+                if any(k_ == ("self", fname) or k_[:2] == ("self", fname) for k_ in st.store.m):
+                    S.bad("R1", "param-reset", key, "reset() of %s leaves parameter `%s` = %s: parameters are unchanged by reset" % (s, fname, show(ex.read_path(st, ("self", fname)))[:120]), loc(rfn.span))
                 continue
             n_obl += 1
             try:
